@@ -21,7 +21,11 @@ Pipes3(K) == {<<a, b, c>> : a \in K, b \in K, c \in K}
 
 In(kind, n, a, b) == [kind |-> kind, n |-> n, a |-> a, b |-> b]
 Around(S, d) == UNION {(x - d)..(x + d) : x \in S}
-Cross(P, I) == {[pipe |-> p, inp |-> i] : p \in P, i \in I}
+(* every case carries one edit for the decode - modify - encode levels; Cross rotates through *)
+(* the edit class, CrossE takes the full product with it                                      *)
+EditFor(p, i) == Edits[((Len(p) + i.n + i.a + (IF p[1].f \in {"A85", "RL"} THEN 1 ELSE 0) + (IF p[Len(p)].f \in {"AHx", "RL", "LZW"} THEN 3 ELSE 0)) % Len(Edits)) + 1]
+Cross(P, I) == {[pipe |-> p, inp |-> i, edit |-> EditFor(p, i)] : p \in P, i \in I}
+CrossE(P, I) == {[pipe |-> p, inp |-> i, edit |-> Edits[e]] : p \in P, i \in I, e \in DOMAIN Edits}
 
 (* decode parameter triples (Colors, BitsPerComponent, Columns) *)
 ParmFew == {<<-1, -1, -1>>, <<1, 8, 5>>, <<3, 8, 2>>, <<1, 1, 7>>, <<2, 16, 3>>, <<4, 4, 3>>}
@@ -47,7 +51,9 @@ ParmIn == {In("rnd", 24, 4, 0), In("run", 12, 0, 0), In("ramp", 7, 3, 1)}
 
 C15Cases ==
   IF Tier = "quick"
-  THEN      Cross(Pipes1(Kinds) \cup Pipes2(Kinds), CoreIn)
+  THEN      CrossE(Pipes1(Kinds), CoreIn)
+       \cup Cross(Pipes2(Kinds), CoreIn)
+       \cup CrossE(Pipes2(Kinds), {In("empty", 0, 0, 0), In("rnd", 9, 1, 0)})
        \cup Cross(Pipes3(Kinds), {In("empty", 0, 0, 0), In("run", 128, 0, 0), In("rnd", 9, 1, 0)})
        \cup Cross(Pipes1(Kinds \cup {Plain("LZW")}), BoundaryIn)
        \cup Cross(Pipes1({Plain("LZW"), LZW(0), LZW(1)}), LzwIn(4))
@@ -56,6 +62,8 @@ C15Cases ==
                   \cup {<<s, Plain("RL")>> : s \in WithParms("Fl", {-1}, {-1, 1, 2, 12, 15}, {<<1, 8, 5>>, <<2, 16, 3>>})},
                   {In("rnd", 24, 4, 0), In("run", 12, 0, 0)})
   ELSE      Cross(Pipes1(Kinds) \cup Pipes2(Kinds) \cup Pipes3(Kinds), CoreIn \cup BoundaryIn)
+       \cup CrossE(Pipes1(Kinds) \cup Pipes2(Kinds), CoreIn \cup {In("run", 129, 0, 0), In("rnd", 33, 2, 0), In("rnd", 1000, 3, 0)})
+       \cup CrossE(Pipes3(Kinds), {In("empty", 0, 0, 0), In("rnd", 9, 1, 0)})
        \cup Cross(Pipes1({Plain("LZW"), LZW(0), LZW(1)}), CoreIn \cup BoundaryIn \cup LzwIn(12))
        \cup Cross(Pipes2({LZW(0), LZW(1)} \cup SimpleKinds) , LzwIn(2))
        \cup Cross(Pipes1(WithParms("Fl", {-1}, PredAll, ParmAll) \cup WithParms("LZW", {0, 1}, PredAll, ParmAll)), ParmIn)
